@@ -41,13 +41,35 @@ structure Decl where
   obj : Nat
 deriving DecidableEq, Repr
 
-/-- what the map can write on a token -/
+/-- `Token::mTokType` as far as the links depend on it -/
+inductive TT where
+  | name | variable | function | enumerator
+deriving DecidableEq, Repr
+
+/-- what the map can write on a token.  `Token` keeps the Variable / Function / Enumerator pointer in ONE union member and tells
+    them apart by `mTokType`; the model keeps that (a token that is given a function after a variable forgets the variable).
+    `isName`: the token is spelt like an identifier (`update_property_info` derives `eVariable` from a non-zero varId only then; the
+    other string classes are folded into `name`, they answer nullptr to all three getters alike). -/
 structure Attr where
   varId : Nat := 0
-  var : Option Nat := none      -- Variable object
-  func : Option Nat := none
-  enumr : Option Nat := none
+  ty : TT := .name
+  ptr : Option Nat := none
+  isName : Bool := true
 deriving DecidableEq, Repr
+
+/-- `Token::variable()` -/
+def Attr.var (a : Attr) : Option Nat := if a.ty = .variable then a.ptr else none
+/-- `Token::function()` -/
+def Attr.func (a : Attr) : Option Nat := if a.ty = .function then a.ptr else none
+/-- `Token::enumerator()` -/
+def Attr.enumr (a : Attr) : Option Nat := if a.ty = .enumerator then a.ptr else none
+/-- `Token::variable(v)`, `v != nullptr` -/
+def Attr.setVariable (a : Attr) (v : Nat) : Attr := { a with ptr := some v, ty := .variable }
+def Attr.setFunction (a : Attr) (f : Nat) : Attr := { a with ptr := some f, ty := .function }
+def Attr.setEnumerator (a : Attr) (e : Nat) : Attr := { a with ptr := some e, ty := .enumerator }
+/-- `Token::varId(id)`: nothing when unchanged, else `update_property_info()` -/
+def Attr.setVarId (a : Attr) (id : Nat) : Attr :=
+  if a.varId = id then a else { a with varId := id, ty := if id ≠ 0 ∧ a.isName then .variable else .name }
 
 structure Data where
   declMap : List (Addr × Decl) := []
@@ -75,11 +97,11 @@ def eraseKey (m : List (Addr × α)) (a : Addr) : List (Addr × α) := m.filter 
 /-- `Decl::ref(tok)` -/
 def Decl.ref (dt : Data) (d : Decl) (t : Nat) : Data :=
   match d.kind with
-  | .enumr => { dt with attrs := updAttr dt.attrs t (fun a => { a with enumr := some d.obj }) }
-  | .func => { dt with attrs := updAttr dt.attrs t (fun a => { a with func := some d.obj }) }
+  | .enumr => { dt with attrs := updAttr dt.attrs t (fun a => a.setEnumerator d.obj) }
+  | .func => { dt with attrs := updAttr dt.attrs t (fun a => a.setFunction d.obj) }
   | .var =>
     let id := (dt.attrs (dt.varDef d.obj)).varId
-    { dt with attrs := updAttr dt.attrs t (fun a => { a with var := some d.obj, varId := id }) }
+    { dt with attrs := updAttr dt.attrs t (fun a => (a.setVariable d.obj).setVarId id) }
   | .scope => dt
 
 /-- `Data::ref(addr, tok)` -/
@@ -103,17 +125,17 @@ def Data.resolve (dt : Data) (a : Addr) : Data :=
 def Data.varDecl (dt : Data) (a : Addr) (dtok obj : Nat) : Data :=
   let dt1 := { dt with declMap := emplace dt.declMap a ⟨.var, dtok, obj⟩, varId := dt.varId + 1,
                        varDef := fun o => if o = obj then dtok else dt.varDef o }
-  let dt2 := { dt1 with attrs := updAttr dt1.attrs dtok (fun x => { x with varId := dt.varId + 1, var := some obj }) }
+  let dt2 := { dt1 with attrs := updAttr dt1.attrs dtok (fun x => (x.setVarId (dt.varId + 1)).setVariable obj) }
   dt2.resolve a
 
 def Data.funcDecl (dt : Data) (a : Addr) (tok obj : Nat) : Data :=
   let dt1 := { dt with declMap := emplace dt.declMap a ⟨.func, tok, obj⟩ }
-  let dt2 := { dt1 with attrs := updAttr dt1.attrs tok (fun x => { x with func := some obj }) }
+  let dt2 := { dt1 with attrs := updAttr dt1.attrs tok (fun x => x.setFunction obj) }
   dt2.resolve a
 
 def Data.enumDecl (dt : Data) (a : Addr) (tok obj : Nat) : Data :=
   let dt1 := { dt with declMap := emplace dt.declMap a ⟨.enumr, tok, obj⟩ }
-  let dt2 := { dt1 with attrs := updAttr dt1.attrs tok (fun x => { x with enumr := some obj }) }
+  let dt2 := { dt1 with attrs := updAttr dt1.attrs tok (fun x => x.setEnumerator obj) }
   dt2.resolve a
 
 def Data.scopeDecl (dt : Data) (a : Addr) (obj : Nat) : Data :=
@@ -323,6 +345,8 @@ def getTemplateParameters (n : NodeRec) : M Str := do
         tp := (if tp.isEmpty then ['<'] else tp ++ [',']) ++ unquote (← extBack cn)
     return tp ++ ['>']
 
+def identLike (s : Str) : Bool := match s with | c :: _ => isAlpha c || c == '_' || c == '$' | [] => false
+
 /-- `tokenList.addtoken(str, mLine, mCol, mFile)` + `tokenList.back()`; an empty string adds nothing -/
 def addtoken (n : NodeRec) (s : Str) : M Nat := do
   let st ← get
@@ -332,7 +356,8 @@ def addtoken (n : NodeRec) (s : Str) : M Nat := do
     | none => failM (.ub "tokenList.back() is null after addtoken(\"\")")
   else
     let id := st.toks.size
-    set { st with toks := st.toks.push { str := s, file := n.pos.file, line := n.pos.line, col := n.pos.col }, back := some id }
+    let data := if identLike s then st.data else { st.data with attrs := updAttr st.data.attrs id (fun a => { a with isName := false }) }
+    set { st with toks := st.toks.push { str := s, file := n.pos.file, line := n.pos.line, col := n.pos.col }, back := some id, data := data }
     return id
 
 def backTok : M (Option Tok) := do
@@ -1124,8 +1149,39 @@ def importDump (file0 : Str) (text : Str) (sizeofFixed : Bool := false) : Except
         let enumName := fun o => (st.events.toList.findSome? fun e => match e with | .enumDecl _ t o' => if o' = o then some t else none | _ => none)
         let live := (st.toks.toList.zipIdx.map fun (t, i) => (i, t)).filter (fun it => !it.2.deleted)
         let cleared := if sizeofFixed then [] else sizeofCleared live
-        let attrs := fun i => if cleared.contains i then { st.data.attrs i with var := none, func := none, enumr := none } else st.data.attrs i
+        let attrs := fun i => if cleared.contains i then { st.data.attrs i with ptr := none } else st.data.attrs i
         .ok { toks := st.toks, store := store, attrs := attrs, varDef := st.data.varDef, funcs := st.funcs,
               ops := st.ops.toList, events := st.events.toList, enumName := enumName }
+
+/-! ## Part 3: the invariant checker run on the token list the REAL importer produced
+
+`Proofs/ClangDeclMap.lean` shows `checkInv … = true → AstStore.Inv (storeOf …)`; the link vector is checked by running the verified
+bracket linker of C14 on the first characters and comparing (`Links.createLinks ts = .ok L`), so that
+`C14.links_symmetric_nested` applies to it. -/
+
+def getO (l : List (Option Nat)) (i : Nat) : Option Nat := (l[i]?).getD none
+
+/-- the pointer store given by three arrays (out of range = nullptr) -/
+def storeOf (parent op1 op2 : List (Option Nat)) : AstStore.Store :=
+  ⟨max parent.length (max op1.length op2.length), getO parent, getO op1, getO op2, fun _ => none⟩
+
+/-- following parent pointers from `i` reaches a root within `fuel` steps -/
+def climbOut (par : Nat → Option Nat) : Nat → Nat → Bool
+  | 0, _ => false
+  | f + 1, i =>
+    match par i with
+    | none => true
+    | some p => climbOut par f p
+
+def checkNode (s : AstStore.Store) (i : Nat) : Bool :=
+  climbOut s.parent (s.n + 1) i &&
+  (match s.op1 i with | some c => s.parent c == some i | none => true) &&
+  (match s.op2 i with | some c => s.parent c == some i | none => true) &&
+  (match s.op1 i, s.op2 i with | some c, some c' => c != c' | _, _ => true) &&
+  (match s.parent i with | some p => s.op1 p == some i || s.op2 p == some i | none => true)
+
+def checkInv (parent op1 op2 : List (Option Nat)) : Bool :=
+  let s := storeOf parent op1 op2
+  (List.range s.n).all (checkNode s)
 
 end Cppcheck.ClangDeclMap
